@@ -185,6 +185,7 @@ def checkPlaceholder (j : Json) : Except String Verdict := do
 
 def check (pid : String) (j : Json) : Except String Verdict := do
   if jStrD j "op" "" = "placeholder" then return ← checkPlaceholder j
+  if jStrD j "op" "" = "evict-during-update" then return ← checkEvictDuringUpdate pid j
   if jStrD j "op" "" = "deadline" then return ← checkDeadline j
   if jStrD j "op" "" = "kind" then return ← checkKind j
   if jStrD j "op" "" = "handlers-order" then return ← checkHandlersOrder pid j
